@@ -306,7 +306,7 @@ def run(ctx, b, drv):
         ctx.count('spec-plans', sum(len(x) for x in impl_plans(pg).values()))
         if not ok:
             ctx.violation('C08:shipped-plan-table-differs-from-specification', dict(kind='input', version=v, status=st))
-    n = base.scale(ctx, 400)
+    n = 400 if ctx.tier == 'quick' else 12000
     for i in range(n):
         r = gens.rng(ctx.seed, 'pgen', i)
         text = gen_grammar(r)
